@@ -302,6 +302,45 @@ func c04JSON(c *Ctx, idx int) {
 	}
 }
 
+// c04NumText: every text of up to 5 (quick) / 6 (thorough) characters over the
+// alphabet of JSON numbers, as a JSON literal on its own, inside a JSON array
+// and as an object member: the number grammar (no leading zeros, digits on
+// both sides of the point, a digit after the exponent marker, no plus sign)
+// is enforced wherever the literal is decoded.
+const c04NumAlphabet = "01-+.eE9 "
+
+func c04NumLen(c *Ctx) int { return tierN(c, 5, 6) }
+
+func c04NumN(c *Ctx) int {
+	n, p := 0, 1
+	for l := 1; l <= c04NumLen(c); l++ {
+		p *= len(c04NumAlphabet)
+		n += p
+	}
+	return n
+}
+
+func c04NumText(c *Ctx, idx int) {
+	l, p := 1, len(c04NumAlphabet)
+	for idx >= p {
+		idx -= p
+		p *= len(c04NumAlphabet)
+		l++
+	}
+	b := make([]byte, l)
+	for i := range b {
+		b[i] = c04NumAlphabet[idx%len(c04NumAlphabet)]
+		idx /= len(c04NumAlphabet)
+	}
+	t := string(b)
+	for _, lit := range []string{"`" + t + "`", "`[1, " + t + "]`", "`{\"k\": " + t + "}`", "a[?b == `" + t + "`]"} {
+		pr := c.CheckGrammar(lit, map[string]string{"family": "json-number-text"})
+		if pr.Status != ref.ParseGap {
+			c.Nontrivial(lit)
+		}
+	}
+}
+
 func init() {
 	Register(&Property{
 		ID:            "C04",
@@ -313,6 +352,7 @@ func init() {
 			{Name: "edits", Setup: c04Setup, N: func(c *Ctx) int { return c04BaseN(c) }, Run: c04Edits, Exhaustive: true},
 			{Name: "generated", N: func(c *Ctx) int { return tierN(c, 30000, 2000000) }, Run: c04Generated},
 			{Name: "json", N: func(c *Ctx) int { return tierN(c, 20000, 1500000) }, Run: c04JSON},
+			{Name: "json-number-text", N: c04NumN, Run: c04NumText, Exhaustive: true},
 		},
 	})
 }
